@@ -214,6 +214,11 @@ func (w *World) fetch(nd *Node, hash hotstuff.Hash) (*hotstuff.Block, bool) {
 			continue
 		}
 		if w.adv != nil {
+			if pb := w.adv.onFetchMalformed(peer, nd, hash); pb != nil {
+				replies[uint32(peer.id)] = pb
+				w.fault("malformed-fetch-reply")
+				continue
+			}
 			if lie := w.adv.onFetch(peer, nd, hash); lie != nil {
 				replies[uint32(peer.id)] = hotstuffpb.BlockToProto(lie)
 				w.fault("lying-fetch-reply")
